@@ -11,6 +11,7 @@ import (
 	"sort"
 	"strings"
 	"sync"
+	"sync/atomic"
 	"time"
 
 	"github.com/plgd-dev/go-coap/v3/pkg/cache"
@@ -60,6 +61,32 @@ type c14Run struct {
 	events []string
 	cur    *c14Thread
 	hung   bool
+	// free-running (barrier) mode: how many callbacks that the API runs inside its write-locked section
+	// are executing at this moment, and the highest value seen
+	free  bool
+	cbIn  atomic.Int32
+	cbMax atomic.Int32
+}
+
+// excl marks a callback that the map promises to run inside its write-locked section (everything but
+// LoadWithFunc's): in free-running mode it lingers a little so that an overlap with another such
+// callback is seen
+func (r *c14Run) excl() {
+	if !r.free {
+		return
+	}
+	n := r.cbIn.Add(1)
+	for {
+		m := r.cbMax.Load()
+		if n <= m || r.cbMax.CompareAndSwap(m, n) {
+			break
+		}
+	}
+	for i := 0; i < 50; i++ {
+		runtime.Gosched()
+	}
+	time.Sleep(30 * time.Microsecond)
+	r.cbIn.Add(-1)
 }
 
 type c14Thread struct {
@@ -256,7 +283,7 @@ func (t *c14Thread) execOp(o c14Op, co *coThread) {
 		t.end("Range2All", r.flatten(d))
 	case "StoreWF":
 		t.begin()
-		m.StoreWithFunc(k, func() *c14E { return r.el(o.V) })
+		m.StoreWithFunc(k, func() *c14E { r.excl(); return r.el(o.V) })
 		t.end(fmt.Sprintf("StoreWF %d %s", k, coqVal(o.V)), nil)
 	case "LoadWF":
 		seen := int64(-1)
@@ -275,16 +302,17 @@ func (t *c14Thread) execOp(o c14Op, co *coThread) {
 		var f func(*c14E) *c14E
 		fs := "None"
 		if o.F.ID != 0 {
-			f = func(v *c14E) *c14E { seen = r.id(v); return r.el(o.F) }
+			f = func(v *c14E) *c14E { r.excl(); seen = r.id(v); return r.el(o.F) }
 			fs = "(Some " + coqVal(o.F) + ")"
 		}
 		t.begin()
-		v, ok := m.LoadOrStoreWithFunc(k, f, func() *c14E { created++; return r.el(o.V) })
+		v, ok := m.LoadOrStoreWithFunc(k, f, func() *c14E { r.excl(); created++; return r.el(o.V) })
 		t.end(fmt.Sprintf("LoadOrStoreWF %d %s %s", k, fs, coqVal(o.V)), []int64{r.id(v), b2i(ok), seen, created})
 	case "ReplaceWF":
 		cbOld, cbOk := int64(-1), int64(-1)
 		t.begin()
 		v, ok := m.ReplaceWithFunc(k, func(old *c14E, loaded bool) (*c14E, bool) {
+			r.excl()
 			cbOld, cbOk = r.id(old), b2i(loaded)
 			return r.el(o.V), o.Del
 		})
@@ -292,12 +320,12 @@ func (t *c14Thread) execOp(o c14Op, co *coThread) {
 	case "DeleteWF":
 		seen := int64(-1)
 		t.begin()
-		m.DeleteWithFunc(k, func(v *c14E) { seen = r.id(v) })
+		m.DeleteWithFunc(k, func(v *c14E) { r.excl(); seen = r.id(v) })
 		t.end(fmt.Sprintf("DeleteWF %d", k), []int64{seen})
 	case "LoadAndDeleteWF":
 		seen := int64(-1)
 		t.begin()
-		v, ok := m.LoadAndDeleteWithFunc(k, func(v *c14E) *c14E { seen = r.id(v); return r.el(o.F) })
+		v, ok := m.LoadAndDeleteWithFunc(k, func(v *c14E) *c14E { r.excl(); seen = r.id(v); return r.el(o.F) })
 		t.end(fmt.Sprintf("LoadAndDeleteWF %d %s", k, coqVal(o.F)), []int64{r.id(v), b2i(ok), seen})
 	case "CLoad":
 		t.begin()
@@ -537,7 +565,14 @@ func c14FreeCall(t *c14Thread, o c14Op) { t.exec(o, nil) }
 // Map.ReplaceWithFunc(otherKey, f) holding the write lock while the threads
 // under test pile up on the mutex; releasing f lets them through together.
 func c14RunBarrier(cs *c14Case) (coq string, piled bool) {
+	coq, piled, _ = c14RunBarrierO(cs)
+	return
+}
+
+// c14RunBarrierO also reports the highest number of write-section callbacks seen running at once
+func c14RunBarrierO(cs *c14Case) (coq string, piled bool, overlap int) {
 	r := newC14Run(cs)
+	r.free = true
 	coCur.Store(nil)
 	n := len(cs.Progs)
 	ths := make([]*c14Thread, n+1)
@@ -580,6 +615,7 @@ func c14RunBarrier(cs *c14Case) (coq string, piled bool) {
 	ths[n] = obs
 	obs.exec(c14Op{Kind: "CopyData"}, nil)
 	coq = fmt.Sprintf("Free %s %s [%s]", c14CoqInit(cs.Init), c14CoqProgs(ths), strings.Join(r.events, "; "))
+	overlap = int(r.cbMax.Load())
 	return
 }
 
@@ -757,8 +793,9 @@ func runC14(a runArgs) error {
 		}
 		if cs.Free {
 			for i := 0; i < 20; i++ {
-				coq, _ := c14RunBarrier(&cs)
+				coq, _, ov := c14RunBarrierO(&cs)
 				e.Add(coq, a.only, true, "free")
+				e.Add(fmt.Sprintf("Overlap %d", ov), a.only, true, "overlap")
 			}
 		} else {
 			_, _, coq, _ := c14RunSched(&cs, cs.Sched)
@@ -901,6 +938,40 @@ func runC14(a runArgs) error {
 			}
 		}
 	}
+	// (6) callbacks that the API runs inside its write-locked section never overlap: several calls of one
+	// *WithFunc method on one key (absent, present, expired) released together, each callback lingering
+	exclMakers := []string{"StoreWF", "LoadOrStoreWF", "LoadOrStoreWF-nil", "ReplaceWF-store", "ReplaceWF-delete", "DeleteWF", "LoadAndDeleteWF"}
+	maxOverlap, overlapRuns := 0, 0
+	for _, mk := range c14Makers {
+		isExcl := false
+		for _, n := range exclMakers {
+			isExcl = isExcl || n == mk.name
+		}
+		if !isExcl {
+			continue
+		}
+		reps := 3
+		if thorough {
+			reps = 12
+		}
+		for _, which := range []int{0, 1, 3} {
+			for rep := 0; rep < reps; rep++ {
+				g := &c14Gen{}
+				cs := &c14Case{Free: true, Init: c14Inits(g, which)}
+				for t := 0; t < 4+rep%3; t++ {
+					cs.Progs = append(cs.Progs, []c14Op{mk.mk(g, 1)})
+				}
+				_, _, ov := c14RunBarrierO(cs)
+				if ov > maxOverlap {
+					maxOverlap = ov
+				}
+				overlapRuns++
+				e.Add(fmt.Sprintf("Overlap %d", ov), c14Desc(cs), true, "overlap", "overlap="+mk.name)
+			}
+		}
+	}
+	e.Extra["write_section_callback_runs"] = overlapRuns
+	e.Extra["write_section_callbacks_max_at_once"] = maxOverlap
 	e.Extra["schedules_forced"] = schedules
 	e.Extra["barrier_runs"] = nb
 	e.Extra["barrier_runs_all_threads_piled_up"] = piledCnt
